@@ -237,6 +237,7 @@ impl<T: Send + 'static> ReadyPipeQueue<T> {
 
   pub async fn pop(&self) -> Result<(usize, T), ZmqError> {
     loop {
+      crate::verif_point!("pop.P1");
       let slot = match self.ready_rx.recv().await {
         Ok(s) => s,
         Err(RecvError::Disconnected) => {
@@ -244,13 +245,16 @@ impl<T: Send + 'static> ReadyPipeQueue<T> {
         }
       };
 
+      crate::verif_point!("pop.P2");
       match slot.rx.try_recv() {
         Ok(item) => {
+          crate::verif_point!("pop.P3");
           let prev = slot.queued_count.fetch_sub(1, Ordering::AcqRel);
           slot.reserved_count.fetch_sub(1, Ordering::AcqRel);
           debug_assert!(prev > 0);
           audit_slot(&slot, "pop");
 
+          crate::verif_point!("pop.P4");
           if prev > 1 {
             cancel_guard!(guard, "ReadyPipeQueue::pop → ready_tx.send");
 
@@ -294,18 +298,22 @@ impl<T: Send + 'static> ReadyPipeQueue<T> {
 
   pub fn try_pop(&self) -> Option<(usize, T)> {
     loop {
+      crate::verif_point!("trypop.Q1");
       let slot = match self.ready_rx.try_recv() {
         Ok(s) => s,
         Err(_) => return None,
       };
 
+      crate::verif_point!("trypop.Q2");
       match slot.rx.try_recv() {
         Ok(item) => {
+          crate::verif_point!("trypop.Q3");
           let prev = slot.queued_count.fetch_sub(1, Ordering::AcqRel);
           slot.reserved_count.fetch_sub(1, Ordering::AcqRel);
           debug_assert!(prev > 0);
           audit_slot(&slot, "try_pop");
 
+          crate::verif_point!("trypop.Q4");
           if prev > 1 {
             let _ = self.ready_tx.try_send(Arc::clone(&slot));
           }
@@ -366,6 +374,7 @@ impl<T: Send + 'static> ReadyPipeSender<T> {
   }
 
   pub async fn send(&self, item: T) -> Result<(), ZmqError> {
+    crate::verif_point!("send.S1");
     let slot = self.slot.upgrade().ok_or(ZmqError::ConnectionClosed)?;
 
     // Reservation increments reserved_count before any channel write.
@@ -373,6 +382,7 @@ impl<T: Send + 'static> ReadyPipeSender<T> {
     // the guard's Drop rolls back reserved_count — no leak.
     let mut reservation = SendReservation::new(Arc::clone(&slot));
 
+    crate::verif_point!("send.S2");
     match slot.tx.try_send(item) {
       Ok(()) => {}
       Err(TrySendError::Closed(_)) => return Err(ZmqError::ConnectionClosed),
@@ -389,9 +399,11 @@ impl<T: Send + 'static> ReadyPipeSender<T> {
 
     // Message is committed to the channel. Seal the reservation so Drop
     // does not roll it back; the consumer's pop() will release it instead.
+    crate::verif_point!("send.S3");
     let prev = slot.queued_count.fetch_add(1, Ordering::AcqRel);
     reservation.commit();
 
+    crate::verif_point!("send.S4");
     if prev == 0 {
       cancel_guard!(cd, "ReadyPipeSender::send → ready_tx.send");
       self
@@ -407,6 +419,7 @@ impl<T: Send + 'static> ReadyPipeSender<T> {
   }
 
   pub fn try_send(&self, item: T) -> Result<(), TrySendError<T>> {
+    crate::verif_point!("try.T1");
     let slot = match self.slot.upgrade() {
       Some(s) => s,
       None => return Err(TrySendError::Closed(item)),
@@ -415,11 +428,14 @@ impl<T: Send + 'static> ReadyPipeSender<T> {
     let mut reservation = SendReservation::new(Arc::clone(&slot));
 
     // If this returns an error, the reservation is dropped (rolled back).
+    crate::verif_point!("try.T2");
     slot.tx.try_send(item)?;
 
+    crate::verif_point!("try.T3");
     let prev = slot.queued_count.fetch_add(1, Ordering::AcqRel);
     reservation.commit();
 
+    crate::verif_point!("try.T4");
     if prev == 0 {
       // 0→1 transition: ready queue capacity must be >= max registered
       // pipes so this should never spin more than one iteration.
@@ -443,6 +459,7 @@ impl<T: Send + 'static> ReadyPipeSender<T> {
   /// the filtered case, discarded). Items that could not be sent due to backpressure
   /// remain at the front of `items` in FIFO order.
   pub fn try_send_batch(&self, items: &mut VecDeque<T>, get_weight: impl Fn(&T) -> usize) -> usize {
+    crate::verif_point!("batch.B1");
     let slot = match self.slot.upgrade() {
       Some(s) => s,
       None => return 0,
@@ -462,12 +479,14 @@ impl<T: Send + 'static> ReadyPipeSender<T> {
 
     while let Some(item) = items.pop_front() {
       let weight = get_weight(&item);
+      crate::verif_point!("batch.B2");
       match slot.tx.try_send(item) {
         Ok(()) => {
           sent_batches += 1;
           total_weight += weight;
           // Inline increment — consumer may pop the item before the batch ends;
           // updating immediately keeps queued_count >= physical channel occupancy.
+          crate::verif_point!("batch.B3");
           let prev = slot.queued_count.fetch_add(1, Ordering::AcqRel);
           if prev == 0 {
             had_zero_transition = true;
@@ -486,6 +505,7 @@ impl<T: Send + 'static> ReadyPipeSender<T> {
     }
 
     // Roll back any reservations for items we couldn't push.
+    crate::verif_point!("batch.B4");
     if sent_batches < n {
       slot
         .reserved_count
@@ -494,6 +514,7 @@ impl<T: Send + 'static> ReadyPipeSender<T> {
 
     // Guaranteed wakeup on 0→1 transition. ready_capacity >= max registered
     // pipes, so the spin almost never executes more than one iteration.
+    crate::verif_point!("batch.B5");
     if had_zero_transition {
       let mut spins = 0usize;
       while let Err(e) = self.ready_tx.try_send(Arc::clone(&slot)) {
